@@ -104,19 +104,22 @@ def ob_weights(k):
     return f
 
 
-def ob_count_mismatch(n_obj, n_w):
+def ob_count_mismatch(n_obj, n_w, mode="serial"):
     """objective / weight count mismatch (n_obj == 0: scalar objective; n_w == 0: an *empty* weight list) is rejected by
     optimize() with ValueError before any cycle has run"""
     def f():
         st = stubs.Stream("np")
-        with env(stubs.numpy_stream_layer(lambda: st)):
+        with env(stubs.numpy_stream_layer(lambda: st), stubs.pool_layer()):
             ret = [sym.real(f"F{j}") for j in range(n_obj)] if n_obj else sym.real("F")
             t = make_task([cont()], lambda x, i: ret, weights=[sym.real(f"w{j}", lo=0.0) for j in range(n_w)])
             opt = Scripted(M.BaseOptimizationConfig(population_size=2, fitness_error=None, max_cycles=2))
             try:
-                opt.optimize(t)
+                opt.optimize(t, mode=mode, workers=2)
             except ValueError:
                 return OK if opt.steps == 0 else Failure("count-mismatch-rejected-after-cycles-ran", steps=opt.steps)
+            except Exception as e:          # e.g. BrokenProcessPool: the rejection must be a ValueError in every mode
+                return Failure("count-mismatch-not-rejected-with-ValueError", mode=mode,
+                               error=f"{type(e).__name__}: {str(e)[:120]}")
             return Failure("objective/weight-count-mismatch-accepted", n_obj=n_obj, n_w=n_w, steps=opt.steps)
     return f
 
@@ -197,6 +200,9 @@ def obligations(tier):
         obs.append(Ob(f"after_rejected[{kind}]", ob_after_rejected(kind), 300))
     for n_obj, n_w in ((0, 0), (0, 2), (1, 0), (1, 2), (2, 0), (2, 1), (2, 3), (3, 2)):
         obs.append(Ob(f"count_mismatch[obj={n_obj},w={n_w}]", ob_count_mismatch(n_obj, n_w), 120))
+        if (n_obj, n_w) in ((2, 3), (0, 2)):
+            for mode in ("thread", "process"):
+                obs.append(Ob(f"count_mismatch[obj={n_obj},w={n_w},{mode}]", ob_count_mismatch(n_obj, n_w, mode), 300))
     lists = [n for n in var_lists(tier) if no_mixed_perm(n) and len(n) <= 2]
     for names in lists:
         tag = "+".join(names)
